@@ -126,11 +126,14 @@ static void explore_input(vr::Runner &R, const Cfg &cfg, const vg::EdgeList &el,
             R.crumb_done();
             if (v.cls == "deadlock") R.count(C_DEADLOCKS);
             std::vector<vx::Point> tr = E.trace; std::vector<int> seq; for (auto &p : tr) seq.push_back(p.chosen);
-            if (cfg.baton_rev && v.ok) {
-                // independence of the baton order: identical observations under the reversed order
-                E.begin(seq, tr);
+            bool later_all_default = true; for (size_t i = (size_t) P; i < tr.size(); ++i) if (tr[i].chosen) later_all_default = false;
+            if (cfg.baton_rev && v.ok && later_all_default) {
+                // independence of the baton order: identical observations under the reversed order. Only executions whose choices
+                // after the P layout choices are all default are compared: the explorer's choice sequence interleaves the ranks'
+                // own choice points in baton order, so a non-default choice would land on a different point under the other order.
+                E.begin(seq, {});
                 Verdict v2 = run_and_check(cfg, var, P, el, w, dim, ref, true, nullptr, nullptr, nullptr, nullptr);
-                if (!v2.ok || E.trace.size() != tr.size()) { fprintf(stderr, "HARNESS-ERROR observation depends on the baton order (%s)\n", cs_of(el, w, var, P, cfg.layout_mode, vx::Explorer::str(tr)).c_str()); exit(2); }
+                if (!v2.ok) { fprintf(stderr, "HARNESS-ERROR observation depends on the baton order (%s)\n", cs_of(el, w, var, P, cfg.layout_mode, vx::Explorer::str(tr)).c_str()); exit(2); }
                 E.trace = tr;
             }
             if (!v.ok && reported++ < 3) {
